@@ -124,8 +124,17 @@ package redisemu
 // the list (its timeout or an unblock won the race) hands the wake-up to the
 // next client waiting for that key; otherwise that client would stay blocked
 // on a non-empty list
+// the ready channel is closed only after the function has looked for a wake-up left in it (and handed it on):
+// gDrainLooked is set where the look happens
+//@ ghost gDrainLooked bool
+//@ ghost gDrainTook bool
 //@ func waitTable.disposeWakeSignal
-//@ prop C11
+//@ prop C11 C12
+//@ ghostentry gDrainLooked = false
+//@ ghostafter "pending := false" : gDrainLooked = true
+//@ ghostentry gDrainTook = false
+//@ ghostafter "pending = true" : gDrainTook = true
+//@ assertbefore "close(ws.ready)" [C11,C12] looked.before.close: gDrainLooked
 //@ safetyprop none
 //@ mode int
 //@ requires wt != nil && wt.table != nil && ws != nil
@@ -133,6 +142,6 @@ package redisemu
 //@ requires free wf.signals: forall w *wakeSignal :: signalWF(w)
 //@ requires free wf.table: forall k string :: haskey(wt.table, k) ==> wt.table[k] != nil
 //@ use waitTable.unlinkWakeSignal.*
-//@ modifies signalListTuple objectWaitList.queueHead objectWaitList.queueTail wakeSignal.objectsHead wakeSignal.objectsTail wakeSignal.raisedBy map ghost.gWakes ghost.gTableUnblocks ghost.gTableUnblockKey ghost.gTableUnblockN
-//@ assertbefore "close(ws.ready)" [C11] handed.on: pending ==> gTableUnblocks == old(gTableUnblocks) + 1 && gTableUnblockKey == old(ws.raisedBy) && gTableUnblockN == 1
-//@ assertbefore "close(ws.ready)" [C11] only.pending: !pending ==> gTableUnblocks == old(gTableUnblocks)
+//@ modifies signalListTuple objectWaitList.queueHead objectWaitList.queueTail wakeSignal.objectsHead wakeSignal.objectsTail wakeSignal.raisedBy map ghost.gWakes ghost.gTableUnblocks ghost.gTableUnblockKey ghost.gTableUnblockN ghost.gDrainLooked ghost.gDrainTook
+//@ assertbefore "close(ws.ready)" [C11,C12] handed.on: gDrainTook ==> gTableUnblocks == old(gTableUnblocks) + 1 && gTableUnblockKey == old(ws.raisedBy) && gTableUnblockN == 1
+//@ assertbefore "close(ws.ready)" [C11,C12] only.pending: !gDrainTook ==> gTableUnblocks == old(gTableUnblocks)
